@@ -164,9 +164,40 @@ theorem GS.sched_harmless (h : GS fr df w) (a s : Nat) (sig t pri : Int) (ha : H
     GS fr df (sched w a s sig t pri).1 :=
   h.inert (h.ginv.sched_harmless a s sig t pri ha) ((Inert.refl w).sched_fst a s sig t pri)
 
+/-- an update of the objects only -/
+theorem GS.objUpd {df' : Demand → Nat} (h : GS fr df w) {W : World} (hst : Stat w W) (hev : W.ev = w.ev)
+    (hgd : W.guards = w.guards) (hp : W.procs = w.procs) (hn : ∀ d, need W d + df d ≤ need w d + df' d) : GS fr df' W :=
+  h.bump (h.ginv.ofStat hst hp hgd hev) hev hgd (fun x => by unfold World.proc; rw [hp]) (gOf_of_stat hst) hn
+
+theorem GS.setResSet (h : GS fr df w) (r : Nat) (y : Res)
+    (hy : ∀ x, w.res[r]? = some x → (resStat y, resNeed y) = (resStat x, resNeed x)) : GS fr df { w with res := w.res.set! r y } :=
+  h.inert (h.ginv.setResSet r y (fun x hx => congrArg Prod.fst (hy x hx))) ((Inert.refl w).setResSet r y hy)
+theorem GS.setPoolsSet (h : GS fr df w) (r : Nat) (y : Pool)
+    (hy : ∀ x, w.pools[r]? = some x → (poolStat y, poolNeed y) = (poolStat x, poolNeed x)) :
+    GS fr df { w with pools := w.pools.set! r y } :=
+  h.inert (h.ginv.setPoolsSet r y (fun x hx => congrArg Prod.fst (hy x hx))) ((Inert.refl w).setPoolsSet r y hy)
+theorem GS.setBufsSet (h : GS fr df w) (r : Nat) (y : Buf)
+    (hy : ∀ x, w.bufs[r]? = some x → (bufStat y, bufNeed y) = (bufStat x, bufNeed x)) : GS fr df { w with bufs := w.bufs.set! r y } :=
+  h.inert (h.ginv.setBufsSet r y (fun x hx => congrArg Prod.fst (hy x hx))) ((Inert.refl w).setBufsSet r y hy)
+theorem GS.setOqsSet (h : GS fr df w) (r : Nat) (y : OQ)
+    (hy : ∀ x, w.oqs[r]? = some x → (oqStat y, oqNeed y) = (oqStat x, oqNeed x)) : GS fr df { w with oqs := w.oqs.set! r y } :=
+  h.inert (h.ginv.setOqsSet r y (fun x hx => congrArg Prod.fst (hy x hx))) ((Inert.refl w).setOqsSet r y hy)
+theorem GS.setPqsSet (h : GS fr df w) (r : Nat) (y : PQ)
+    (hy : ∀ x, w.pqs[r]? = some x → (pqStat y, pqNeed y) = (pqStat x, pqNeed x)) : GS fr df { w with pqs := w.pqs.set! r y } :=
+  h.inert (h.ginv.setPqsSet r y (fun x hx => congrArg Prod.fst (hy x hx))) ((Inert.refl w).setPqsSet r y hy)
+theorem GS.modProcCtl (h : GS fr df w) (p : Pid) (f : Proc → Proc) (hf : ∀ x, (f x).awaits = x.awaits ∧ (f x).blocked = x.blocked) :
+    GS fr df (w.modProc p f) :=
+  h.inert (h.ginv.modProc_ctl p f hf) ((Inert.refl w).modProc p f (fun x => by rw [(hf x).1]))
+
 syntax "gs_step" : tactic
 macro_rules | `(tactic| gs_step) => `(tactic| dsimp only)
 macro_rules | `(tactic| gs_step) => `(tactic| split)
+macro_rules | `(tactic| gs_step) => `(tactic| (guard_world_lit; with_reducible refine GS.setPqsSet ?_ _ _ (by obj_side)))
+macro_rules | `(tactic| gs_step) => `(tactic| (guard_world_lit; with_reducible refine GS.setOqsSet ?_ _ _ (by obj_side)))
+macro_rules | `(tactic| gs_step) => `(tactic| (guard_world_lit; with_reducible refine GS.setBufsSet ?_ _ _ (by obj_side)))
+macro_rules | `(tactic| gs_step) => `(tactic| (guard_world_lit; with_reducible refine GS.setPoolsSet ?_ _ _ (by obj_side)))
+macro_rules | `(tactic| gs_step) => `(tactic| (guard_world_lit; with_reducible refine GS.setResSet ?_ _ _ (by obj_side)))
+macro_rules | `(tactic| gs_step) => `(tactic| (with_reducible refine GS.modProcCtl ?_ _ _ (fun _ => ⟨rfl, rfl⟩)))
 macro_rules | `(tactic| gs_step) => `(tactic| with_reducible apply GS.signal_mono)
 macro_rules | `(tactic| gs_step) => `(tactic| (with_reducible refine GS.sched_harmless ?_ _ _ _ _ _ (by decide)))
 macro_rules | `(tactic| gs_step) => `(tactic| with_reducible apply GS.setVar)
